@@ -21,3 +21,12 @@ chk("C03", TV,
     "variable changes and the end of the construct is always reached. Bounded in tree depth/nesting, not in values.",
     BASE_NOTE, "SMT translation validation of emitted eBPF control flow (z3 BV, merged symbolic execution)",
     "A:8/C03")
+
+chk("C07", TV,
+    "XDP programs with packet variables / packet array elements of every format and byte order (read, write, in-place "
+    "update, packet-to-packet copy) under minimumPacketSize and explicit packet-size guards are compiled by the real "
+    "generator and executed symbolically on a packet of symbolic length and content: read value == struct.unpack, "
+    "written bytes == struct.pack, no other packet byte changes (symbolic index), body runs iff the packet is longer "
+    "than the guard, every packet access stays inside the packet. All lengths 0..guard+64 and all byte values.",
+    BASE_NOTE + " Replay oracle is the real struct module.",
+    "SMT translation validation of emitted eBPF over a symbolic packet (z3 BV + arrays)", "A:8/C07")
